@@ -37,13 +37,32 @@ fn op_strategy() -> impl Strategy<Value = Op> {
     ]
 }
 
+/// Every binding of the fixture removed (D has to be opened first): the per-database key map
+/// becomes EMPTY, a state of its own for whatever persists the map (seeded change C14-1: "nothing
+/// to persist" skipped the write, so the last revoked key came back after a restart).
+fn revoke_everything() -> Vec<Op> {
+    use Op::*;
+    vec![RemoveKey { role: 0 }, RemoveKey { role: 1 }, RemoveKey { role: 2 }, Open { role: 3, connect: false }, RemoveKey { role: 3 }]
+}
+
+/// A quarter of the generated histories start from the empty key map.
+fn with_optional_revocation(ops: Vec<Op>, sel: u8) -> Vec<Op> {
+    if sel % 4 == 0 {
+        let mut v = revoke_everything();
+        v.extend(ops);
+        v
+    } else {
+        ops
+    }
+}
+
 fn case_strategy() -> impl Strategy<Value = Case> {
-    prop::collection::vec(op_strategy(), 1..14).prop_map(|ops| Case { ops, body_sample: None })
+    (prop::collection::vec(op_strategy(), 1..14), any::<u8>()).prop_map(|(ops, sel)| Case { ops: with_optional_revocation(ops, sel), body_sample: None })
 }
 
 fn sampled_strategy() -> impl Strategy<Value = Case> {
-    (prop::collection::vec(op_strategy(), 1..24), prop::collection::vec(any::<u16>(), 6))
-        .prop_map(|(ops, picks)| Case { ops, body_sample: Some(picks) })
+    (prop::collection::vec(op_strategy(), 1..24), prop::collection::vec(any::<u16>(), 6), any::<u8>())
+        .prop_map(|(ops, picks, sel)| Case { ops: with_optional_revocation(ops, sel), body_sample: Some(picks) })
 }
 
 /// Fixed histories: one per lifecycle state the property names.
@@ -71,6 +90,17 @@ fn canonical() -> Vec<Case> {
                 Open { role: d, connect: true },
                 SetKey { role: d, sel: KeySel::Retired(65535) },
             ],
+            body_sample: None,
+        },
+        // every binding removed: the key map is empty when the matrix (and its restart pass) runs
+        Case { ops: revoke_everything(), body_sample: None },
+        // every binding removed, restart, one new binding, which is removed again
+        Case {
+            ops: {
+                let mut v = revoke_everything();
+                v.extend([Restart, SetKey { role: c, sel: KeySel::Fresh }, Restart, RemoveKey { role: c }]);
+                v
+            },
             body_sample: None,
         },
         // everything, with restarts in between
@@ -134,14 +164,14 @@ fn main() {
     let t = &tables;
     r.sub_enum(
         "canonical_histories",
-        "6 fixed admin histories (plain fixture; read-only database and collections; restart; close/reopen; key life cycle with generated and reused keys; all combined), each followed by the COMPLETE request matrix in six name-rotated worlds; non-trivial = the matrix contains requests by database-bound or revoked keys (always)",
+        "8 fixed admin histories (plain fixture; read-only database and collections; restart; close/reopen; key life cycle with generated and reused keys; every binding removed - the empty key map - with and without restarts; all combined), each followed by the COMPLETE request matrix in six name-rotated worlds; non-trivial = the matrix contains requests by database-bound or revoked keys (always)",
         true,
         canonical(),
         |c, ctx| run_case(t, c, ctx),
     );
     r.sub(
         "generated_histories",
-        "1-13 generated admin actions (set_api_key supplied / generated / reusing a retired key, remove_api_key, close, open/connect, restart, database and collection read-only, document and extension writes, flush) on top of the fixture, then the COMPLETE request matrix in six name-rotated worlds; non-trivial = the matrix contains requests by database-bound or revoked keys (always: the fixture guarantees both)",
+        "1-13 generated admin actions, a quarter of them on top of the empty key map (every fixture binding removed first), (set_api_key supplied / generated / reusing a retired key, remove_api_key, close, open/connect, restart, database and collection read-only, document and extension writes, flush) on top of the fixture, then the COMPLETE request matrix in six name-rotated worlds; non-trivial = the matrix contains requests by database-bound or revoked keys (always: the fixture guarantees both)",
         (16, 400),
         case_strategy,
         |c, ctx| run_case(t, c, ctx),
